@@ -627,6 +627,15 @@ def path_sources() -> list[str]:
     return out
 
 
+def path_word_sources() -> list[str]:
+    """Every path written as a word over segment spellings, including a bracketed ROOT, shorthand indexes (`.1`), and
+    white space on either side of a dot or inside brackets: roots x all segment words of length <= 3, at two sites."""
+    roots = ["a", "['k k']", "[k]", "a-b"]
+    segs = [".b", "[0]", "['s']", "[k]", ".1", ".0", ". b", " .b", "[ 0 ]", ".\nb"]
+    paths = [r + "".join(w) for r in roots for n_ in range(4) for w in itertools.product(segs, repeat=n_)]
+    return ["{{ " + p_ + " }}" for p_ in paths] + ["{{ x | append: " + p_ + " }}" for p_ in paths if len(p_) < 14]
+
+
 def line_sources() -> list[str]:
     """Multi-line sources under every line convention str.splitlines knows, with the error on the LAST line."""
     out = []
@@ -704,6 +713,10 @@ def _plan_impl(tier: str, seed: int):
         shards.append(("concat", lo, hi))
     total += len(heads)
     shards.append(("kept",))
+    pw = path_word_sources()
+    for lo, hi in chunks(len(pw), 256):
+        shards.append(("pathwords", lo, hi))
+    total += len(pw)
     total += len(KEPT_FIRST) * len(KEPT_SECOND)
     meta = {
         "space_size": total,
@@ -724,6 +737,9 @@ def run_shard(shard) -> ShardResult:
     elif kind == "corpus":
         _, lo, hi = shard
         run_sources(corpus_cached(_TIER[0])[lo:hi], res)
+    elif kind == "pathwords":
+        _, lo, hi = shard
+        run_sources(path_word_sources()[lo:hi], res)
     elif kind == "kept":
         for first in KEPT_FIRST:
             for second in KEPT_SECOND:
